@@ -173,12 +173,63 @@ def shape : Query → Option (List WithTable)
   | .union (some ws) s us => if (s :: us.map (·.2)).all branchPlain then some ws else none
   | _ => none
 
+/-! ### wildcards -/
+
+def isStar : Expr × Option String → Bool
+  | (.wildcard _, none) => true
+  | _ => false
+
+/-- **the hypothesis that excludes F-C16-6**: the FROM / JOIN item is referred to by its own table name — a base table or WITH table
+WITHOUT alias, or a derived table (whose only name is its alias).  The analysis expands a wildcard into references qualified by the
+table's name and then looks that name up among the aliases, so an aliased table is not found (or another item of that name is). -/
+def plainKey : FromTable → Bool
+  | .mk (.table _ _) none => true
+  | .mk (.sub _) (some _) => true
+  | _ => false
+
+/-- `x.*`: one output column per column of the relation bound to `x`, in order, each reading that column of `x` -/
+def expandRel (key : String) (R : Rel) (idx : Nat) : List (SCol × List QCol) :=
+  (R.zipIdx idx).map fun (p, i) => (⟨Int.ofNat i, p.1⟩, [⟨some key, some p.1, none⟩])
+
+/-- `*`: the columns of every FROM / JOIN item, item after item -/
+def expandAll : Scope → Nat → List (SCol × List QCol)
+  | [], _ => []
+  | (k, R) :: r, idx => expandRel k R idx ++ expandAll r (idx + R.length)
+
+/-- the numbered output columns of a SELECT with wildcards, and the references each reads; an unknown `x` in `x.*` is the analysis error -/
+def curOfW (scope : Scope) : List (Expr × Option String) → Nat → Except FErr (List (SCol × List QCol))
+  | [], _ => .ok []
+  | (.wildcard (some t), none) :: r, idx =>
+    match dictGet? scope t with
+    | none => .error .analysis
+    | some R => do
+      let rest ← curOfW scope r (idx + R.length)
+      pure (expandRel t R idx ++ rest)
+  | (.wildcard none, none) :: r, idx => do
+    let rest ← curOfW scope r (idx + (expandAll scope idx).length)
+    pure (expandAll scope idx ++ rest)
+  | it :: r, idx =>
+    match itemName it with
+    | none => .error .outside
+    | some n => do
+      let rest ← curOfW scope r (idx + 1)
+      pure ((⟨Int.ofNat idx, n⟩, colsE it.1) :: rest)
+
+/-- the flow of one SELECT whose select list contains `*` / `x.*` (every FROM / JOIN item must be `plainKey`) -/
+def starFlow (fts : List FromTable) (scope : Scope) (its : List (Expr × Option String)) : Except FErr Rel :=
+  if !(fts.all plainKey) then .error .outside else do
+  let cur ← curOfW scope its 1
+  let data ← curFlow scope cur
+  pure (data.map fun p => (p.1.name, p.2))
+
 /-- **the flow of a query's own level over its scope.**  One SELECT: its items.  A set operation (UNION [ALL], EXCEPT, …, the
 analysis does not distinguish them): column-wise — names from the first branch, into column i flows what the i-th items of ALL
 branches read, branch after branch. -/
 def levelFlow (q : Query) (scope : Scope) : Except FErr Rel :=
   match q with
-  | .single s => items scope (AN.Select.cols s)
+  | .single s =>
+    if (AN.Select.cols s).any isStar then starFlow (levelFromTables q) scope (AN.Select.cols s)
+    else items scope (AN.Select.cols s)
   | .union _ s us =>
     if !((s :: us.map (·.2)).all branchOK) then .error .outside else do
     let merged ← us.foldlM (fun acc p => mergeCur acc (curOf (AN.Select.cols p.2) 1)) (curOf (AN.Select.cols s) 1)
